@@ -11,6 +11,9 @@ one() {
   out=$(tools/try_seed.sh $S $C 2>&1)
   if [ -f seeded/$S/SUPERSEDED ] && echo "$out" | grep -q "exit 0"; then res="not a violation any more: $(cat seeded/$S/SUPERSEDED)"; kind="-"
   elif echo "$out" | grep -q "does not apply"; then res="patch no longer applies to /repo HEAD (superseded by a re-based copy)"; kind="-"
+  elif echo "$out" | grep -q "exit 0" && [ -f seeded/$S/NEIGHBOUR ]; then
+    N=$(cat seeded/$S/NEIGHBOUR); out2=$(tools/try_seed.sh $S $N 2>&1)
+    if echo "$out2" | grep -q "^VIOLATION"; then res="green on $C; VIOLATION by the check of $N (documented neighbour)"; kind="see DESIGN 11.3"; else res="MISSED (check stayed green, neighbour $N too)"; kind="-"; fi
   elif echo "$out" | grep -q "exit 0"; then res="MISSED (check stayed green)"; kind="-"
   elif echo "$out" | grep -q "^VIOLATION.*replay=[^ ]*-[0-9]*\.json *$"; then res="VIOLATION"; kind="concrete failing input (oracle finding, shrunk replay)"
   elif echo "$out" | grep -q "no-failing-input-found"; then res="VIOLATION"; kind="no-failing-input-found (broken obligation / correspondence only)"
